@@ -250,6 +250,29 @@ def long_lists(r, n_cases):
     return n
 
 
+def odd_levels(r, n_cases):
+    """levels the model's rationals do not cover - nan (argparse's float accepts it), inf, -inf: nothing exceeds nan or inf (cutoff
+    1.0), every mean exceeds -inf (cutoff = the smallest finite PEP); monitor only"""
+    from picked_group_fdr import fdr
+    n = 0
+    for _ in range(n_cases):
+        rng = r.rng
+        peps = [rng.choice([0.0, 0.001, 0.02, 0.3, 0.9, 1.0, float("nan"), float("inf")]) for _ in range(rng.randint(0, 8))]
+        fin = sorted(p for p in peps if p == p and abs(p) != float("inf"))
+        for level, want in ((float("nan"), 1.0), (float("inf"), 1.0), (float("-inf"), fin[0] if fin else 1.0)):
+            n += 1
+            try:
+                got = float(fdr.calc_post_err_prob_cutoff(list(peps), level))
+            except Exception as e:
+                got = f"raised {type(e).__name__}"
+            if got != want:
+                r.violation("property-failure", {"suite": "odd_levels", "peps": [repr(p) for p in peps], "level": repr(level), "expected": want,
+                                                 "got": got}, True,
+                            f"odd_levels: level {level!r} on {len(peps)} PEPs: cutoff {got}, the first PEP whose running mean exceeds the level is {want}")
+                return n
+    return n
+
+
 def run(r: core.Runner):
     r.assumptions += [
         "float arithmetic of the running mean is exact on the generated grid (multiples of 2^-20, <= 1024 "
@@ -260,4 +283,4 @@ def run(r: core.Runner):
     for s in SUITES:
         r.run_suite(s)
     r.traces = (r.traces or 0) + call_sites(r, core.tier_n(r.tier, 300, 5000))
-    r.traces += long_lists(r, core.tier_n(r.tier, 6, 40))
+    r.traces += long_lists(r, core.tier_n(r.tier, 6, 40)) + odd_levels(r, core.tier_n(r.tier, 40, 400))
